@@ -211,6 +211,24 @@ fn special_points() -> Vec<(Vars, Memo)> {
     vec![mk(0.0, 0.0, [0.0, 0.0], [0.0, 0.0]), mk(1.0, 1.0, [1.0, 1.0], [1.0, 1.0]), mk(2.5, -1.0, [-1.0, 2.5], [2.5, 0.0])]
 }
 
+/// does the tree contain a power whose base simplifies to the number 0 and whose exponent does not
+/// simplify to a number (the situation in which the simplifier's pinned rewrite 0^e -> 0 fires)?
+fn has_pinned_zero_power_site(e: &Ex) -> bool {
+    match e {
+        Ex::In(op, l, r) => {
+            if *op == 0 {
+                let zero_base = matches!(Ex::from_expr(&l.to_expr().into_simplified()), Ex::Num(re, im) if re == 0.0 && im == 0.0);
+                if zero_base && !matches!(Ex::from_expr(&r.to_expr().into_simplified()), Ex::Num(..)) {
+                    return true;
+                }
+            }
+            has_pinned_zero_power_site(l) || has_pinned_zero_power_site(r)
+        }
+        Ex::Fn(_, c) | Ex::Pre(_, c) => has_pinned_zero_power_site(c),
+        _ => false,
+    }
+}
+
 fn id_of(w: Which) -> &'static str {
     match w {
         Which::C03 => "C03",
@@ -234,9 +252,13 @@ fn eval_case(ctx: &mut Ctx, which: Which, ex: &Ex, pts: &[(Vars, Memo)], shrinks
             continue;
         }
         let did = *shrinks < if which == Which::C12 { 200_000 } else { 3000 };
+        // C12: a witness is never shrunk *into* the pinned 0^e rewrite (known finding): a case that does not
+        // contain a site of that rewrite must keep failing without one, so that e.g. a wrong fold of the
+        // literal 0^0 is not reported under the known class just because 0^%x fails as well
+        let avoid_site = which == Which::C12 && clause == "value" && !has_pinned_zero_power_site(ex);
         let small = if did {
             *shrinks += 1;
-            shrink(ex.clone(), &|c: &Ex| check(which, c, pts).iter().any(|(cl, _)| *cl == clause))
+            shrink(ex.clone(), &|c: &Ex| (!avoid_site || !has_pinned_zero_power_site(c)) && check(which, c, pts).iter().any(|(cl, _)| *cl == clause))
         } else {
             ex.clone()
         };
